@@ -13,9 +13,15 @@ def checker_cmd(prop, tier):
     return './check %s --tier %s' % (prop, tier)
 
 
+CFGMAP = {}          # thorough tier, second pass: every configuration is replaced by the all-features workspace build
+_programs = {}
+
+
 def program(config):
-    f = facts.load(config)
-    return pxm.Program(f)
+    config = CFGMAP.get(config, config)
+    if config not in _programs:
+        _programs[config] = pxm.Program(facts.load(config))
+    return _programs[config]
 
 
 def new_report(prop, tier, level):
